@@ -183,24 +183,6 @@ fn curve_intersects_curve_clip_inner<'a, C: BezierCurve>(curve1: CurveSection<'a
 where
     C::Point: 'a+Coordinate2D,
 {
-    // Overlapping curves should be treated separately (the clipping algorithm will just match all of the points)
-    let overlaps = overlapping_region(&curve1, &curve2);
-    if let Some(((c1_t1, c1_t2), (c2_t1, c2_t2))) = overlaps {
-        // Convert the overlapping region back to t values for the original curve
-        let c1_t1 = curve1.t_for_t(c1_t1);
-        let c1_t2 = curve1.t_for_t(c1_t2);
-        let c2_t1 = curve2.t_for_t(c2_t1);
-        let c2_t2 = curve2.t_for_t(c2_t2);
-
-        if c1_t1 == c1_t2 || c2_t1 == c2_t2 {
-            // Overlapped at a single point, so only one intersection
-            return smallvec![(c1_t1, c2_t1)];
-        } else {
-            // Overlapping curves cross at both points
-            return smallvec![(c1_t1, c2_t1), (c1_t2, c2_t2)];
-        }
-    }
-
     // We'll iterate on the two curves
     let mut curve1 = curve1;
     let mut curve2 = curve2;
@@ -308,6 +290,29 @@ where
     // Start with the entire span of both curves
     let curve1 = curve1.section(0.0, 1.0);
     let curve2 = curve2.section(0.0, 1.0);
+
+    // Overlapping curves should be treated separately (the clipping algorithm will just match all of the points)
+    //
+    // This is decided once, for the curves as a whole: the sections produced while clipping often start or end on the other
+    // curve (at a crossing that has already been located), and for such a pair of sections `overlapping_region` reports a
+    // 'region' a few millionths of a t unit long around the shared end point, which used to end the search for any other
+    // crossing in the same pair of sections
+    let overlaps = overlapping_region(&curve1, &curve2);
+    if let Some(((c1_t1, c1_t2), (c2_t1, c2_t2))) = overlaps {
+        // Convert the overlapping region back to t values for the original curve
+        let c1_t1 = curve1.t_for_t(c1_t1);
+        let c1_t2 = curve1.t_for_t(c1_t2);
+        let c2_t1 = curve2.t_for_t(c2_t1);
+        let c2_t2 = curve2.t_for_t(c2_t2);
+
+        if c1_t1 == c1_t2 || c2_t1 == c2_t2 {
+            // Overlapped at a single point, so only one intersection
+            return smallvec![(c1_t1, c2_t1)];
+        } else {
+            // Overlapping curves cross at both points
+            return smallvec![(c1_t1, c2_t1), (c1_t2, c2_t2)];
+        }
+    }
 
     // Perform the clipping algorithm on these curves
     curve_intersects_curve_clip_inner(curve1, curve2, accuracy, accuracy*accuracy)
